@@ -24,7 +24,7 @@ Bi(o, a, b) == [op |-> o, a |-> a, b |-> b]
 T0 == {Lf(k) : k \in LeafKinds}
 \* Suffix = FALSE leaves out ~ and ^ (the SQL renderers reject them by design)
 Grow(S) == S \cup {Un(o, a) : o \in {"NOT","MUST","MUST_NOT"}, a \in S}
-             \cup (IF Suffix THEN {Sx("FUZZY", a, p) : a \in S, p \in {"none","int"}} ELSE {})
+             \cup (IF Suffix THEN {Sx("FUZZY", a, p) : a \in S, p \in {"none","int","zint"}} ELSE {})
              \cup (IF Suffix THEN {Sx("BOOST", a, p) : a \in S, p \in {"none","int","float"}} ELSE {})
              \cup {Bi(o, a, b) : o \in {"AND","OR"}, a \in S, b \in S}
 RECURSIVE TreesTo(_)
@@ -41,21 +41,23 @@ TokVal(kind, i) ==
     [] kind = "star"   -> "*"
     [] kind = "regexp" -> "/r" \o ToString(i) \o "/"
     [] kind = "int"    -> ToString(10 + i)
+    [] kind = "zint"   -> "0"
     [] kind = "nint"   -> "-" \o ToString(10 + i)
     [] kind = "float"  -> ToString(i) \o ".5"
     [] kind = "ifloat" -> ToString(i) \o ".0"          \* an integer-valued float (C12)
     [] kind = "empty"  -> ""                           \* the empty quoted string ""
     [] kind = "same"   -> "same"                       \* the same word wherever it stands (repeated values / subtrees)
     [] OTHER           -> kind
-NumKind(k) == k \in {"int","nint","float","ifloat"}
+NumKind(k) == k \in {"int","zint","nint","float","ifloat"}
 Tk(kind, i) == [t |-> kind, v |-> TokVal(kind, i), pv |-> IF NumKind(kind) THEN TokVal(kind, i) ELSE ""]
 Sy(t) == [t |-> t, v |-> t, pv |-> ""]
-IsTermTok(tok) == tok.t \in {"word","quoted","wild","star","regexp","int","nint","float","ifloat","empty","same"}
+IsTermTok(tok) == tok.t \in {"word","quoted","wild","star","regexp","int","zint","nint","float","ifloat","empty","same"}
 \* what a term token denotes (REF, property C06/C08): a typed leaf
 RLeaf(tok) ==
   CASE tok.t \in {"word","quoted","empty","same"} -> [op |-> "LIT", ty |-> "str", v |-> tok.v, sg |-> "x"]
     [] tok.t = "ifloat"            -> [op |-> "LIT", ty |-> "float", v |-> ToString(CHOOSE k \in 0..400 : ToString(k) \o ".0" = tok.v), sg |-> "p"]
     [] tok.t = "int"               -> [op |-> "LIT", ty |-> "int", v |-> tok.v, sg |-> "p"]
+    [] tok.t = "zint"              -> [op |-> "LIT", ty |-> "int", v |-> tok.v, sg |-> "z"]
     [] tok.t = "nint"              -> [op |-> "LIT", ty |-> "int", v |-> tok.v, sg |-> "n"]
     [] tok.t = "float"             -> [op |-> "LIT", ty |-> "float", v |-> tok.v, sg |-> "p"]
     [] tok.t \in {"wild","star"}   -> [op |-> "WILD", ty |-> "str", v |-> tok.v, sg |-> "x"]
@@ -179,8 +181,8 @@ AndPaths(T, path) ==
 Whole(T, J, R) == LET r == Wrap(T, 1, <<>>, J, R, R) IN r
 
 \* ---- whitespace / keyword case vectors (C09) --------------------------------------------------
-WordLike(t) == t \in {"word","int","nint","float","ifloat","same","wild","star","AND","OR","NOT","TO"}
-DigitStart(t) == t \in {"int","float","ifloat"}
+WordLike(t) == t \in {"word","int","zint","nint","float","ifloat","same","wild","star","AND","OR","NOT","TO"}
+DigitStart(t) == t \in {"int","zint","float","ifloat"}
 \* may the two tokens be typed with nothing between them without changing the segmentation
 CanAbut(a, b) == /\ ~(WordLike(a) /\ WordLike(b))
                  /\ ~(WordLike(a) /\ b = "MINUS")
@@ -237,7 +239,7 @@ RandTree(d) ==
   ELSE LET o == RandomElement(IF Suffix THEN {"AND","AND2","OR","OR2","NOT","MUST","MUST_NOT","FUZZY","BOOST"}
                                         ELSE {"AND","AND2","OR","OR2","NOT","MUST","MUST_NOT"}) IN
        CASE o \in {"AND","OR","AND2","OR2"} -> Bi(IF o \in {"AND","AND2"} THEN "AND" ELSE "OR", RandTree(d - 1), RandTree(d - 1))
-         [] o = "FUZZY" -> Sx(o, RandTree(d - 1), RandomElement({"none","int"}))
+         [] o = "FUZZY" -> Sx(o, RandTree(d - 1), RandomElement({"none","int","zint"}))
          [] o = "BOOST" -> Sx(o, RandTree(d - 1), RandomElement({"none","int","float"}))
          [] OTHER -> Un(o, RandTree(d - 1))
 AllTrees == IF Sample = 0 THEN TreesTo(Depth) ELSE {}
